@@ -119,7 +119,7 @@ func libProbe(w *world, log *probeLog) []xsel.ContextApply {
 			log.bad = append(log.bad, fmt.Sprintf("probe called with context %T (len %d) and %d args", ctx.Result(), len(ns), len(args)))
 			return xsel.Bool(true), nil
 		}
-		a, ok := w.m.ToA[ns[0]]
+		a, ok := w.m.ToA[bridge.Canon(ns[0])]
 		if !ok {
 			log.bad = append(log.bad, "probe context node is not a node of the document")
 			return xsel.Bool(true), nil
@@ -162,6 +162,11 @@ func c02Case(r *evid.Run, tier string, idx int, g *rng.R) {
 		// every fourth case runs the evaluator on the independent Cursor implementation (R-ref)
 		w, err = newRefWorld(d)
 		r.Count("cases_on_reference_cursor", 1)
+		if err == nil && idx%8 == 7 {
+			// identity of nodes is Pos(): this view hands out a fresh cursor value on every access
+			w.lazy = true
+			r.Count("cases_on_lazily_allocated_cursors", 1)
+		}
 	}
 	if err != nil {
 		r.Inconclusive("store tree mismatch: " + err.Error())
@@ -414,6 +419,9 @@ func c02Case(r *evid.Run, tier string, idx int, g *rng.R) {
 			note(e, v, "attr-ns-step-predicate")
 		}
 	}
+	if idx%3 == 0 && !w.ref {
+		c02Foreign(r, idx, g, w, o)
+	}
 	// (d) library-only identities
 	for i := 0; i < n1/2; i++ {
 		base := gen.AbsPath(2)
@@ -452,6 +460,14 @@ func c02Case(r *evid.Run, tier string, idx int, g *rng.R) {
 			}
 		}
 	}
+}
+
+// c02Foreign: paths continued after a variable / custom function that holds nodes of another tree.
+func c02Foreign(r *evid.Run, idx int, g *rng.R, w *world, o adoc.GenOpts) {
+	saveV, saveF := w.env.Vars, w.env.Funcs
+	w.env.Vars, w.env.Funcs = nil, nil
+	foreignSection(r, "pred/two-documents", idx, g, w, o, fsPathEA, fsPathEB)
+	w.env.Vars, w.env.Funcs = saveV, saveF
 }
 
 func head(xs []string, n int) []string {
